@@ -298,12 +298,12 @@ class SpectralDensity(DFunction, UnitsManaged):
                      omega0**2)**2 + (gamma*omega)**2)
 
         if values is not None:
-            self._make_me(self.axis, values)
+            self._add_me(self.axis, values)
         else:
-            self._make_me(self.axis, cfce)
+            self._add_me(self.axis, cfce)
 
-        # this is in internal units
-        self.lamb = lamb            
+        # this is in internal units (reorganization energy is additive)
+        self.lamb += lamb            
         self.lim_omega = numpy.zeros(2)
         self.lim_omega[0] = 0.0
         self.lim_omega[1] = 4*(gamma*(omega0**2))/((omega0**2)**2)
